@@ -748,6 +748,8 @@ func checkC12(c *Check) {
 	c12HookAfterInit(c, "R15")
 	c19NilMapGuard(c, "R16", poolRel)
 	c12GoroutinesCounted(c, "R17")
+	c12NoLockAcrossWait(c, "R18")
+	c12StagingFilePerMessage(c, "R19")
 
 	c.Rule("R5", "the panic handler of an attempt renames the metadata (quarantine) and never removes spool files", 1)
 	c.Rule("R6", "the synchronous part of the dispatch callback (it runs on the scheduler goroutine) performs no blocking operation", 1)
